@@ -316,7 +316,35 @@ impl<'a> Model<'a> {
                 self.language,
             );
             if formula != formula_displaced {
-                self.update_cell_with_formula(sheet, row, column, format!("={formula_displaced}"))?;
+                // The anchor of a CSE array formula must stay one: writing it back as
+                // a plain formula would orphan the spill cells of its block
+                let cse = match self.workbook.worksheet(sheet)?.cell(row, column) {
+                    Some(Cell::ArrayFormula {
+                        kind: ArrayKind::Cse,
+                        r,
+                        s,
+                        ..
+                    }) => Some((*r, *s)),
+                    _ => None,
+                };
+                if let Some(((width, height), style)) = cse {
+                    self.set_cell_with_array_formula(
+                        sheet,
+                        row,
+                        column,
+                        &formula_displaced,
+                        style,
+                        width,
+                        height,
+                    )?;
+                } else {
+                    self.update_cell_with_formula(
+                        sheet,
+                        row,
+                        column,
+                        format!("={formula_displaced}"),
+                    )?;
+                }
             };
         }
         Ok(())
